@@ -508,7 +508,8 @@ pub fn nullable_chain_cfg(rng: &mut Rng) -> (Cfg, Vec<bool>) {
 /// formatting and sorting of numbered names go wrong (9/10/11, 16, 32, 64, 100, 128, 256 ...):
 /// many terminals, many nonterminals, many rules, many states.
 pub fn big_cfg(rng: &mut Rng, max_states_hint: usize) -> (Cfg, Vec<bool>) {
-    let v = rng.below(7);
+    // (variant 7 makes automata of thousands of states: only where nothing is compiled)
+    let v = if max_states_hint >= 400 { rng.below(8) } else { rng.below(7) };
     big_cfg_variant(rng, max_states_hint, v)
 }
 
@@ -516,6 +517,24 @@ pub fn big_cfg_variant(rng: &mut Rng, max_states_hint: usize, variant: usize) ->
     const SIZES: &[usize] = &[9, 10, 11, 10, 15, 16, 17, 16, 31, 32, 33, 32, 63, 64, 65, 64, 99, 100, 101, 120];
     let mut n = *rng.pick(SIZES);
     match variant {
+        7 => {
+            // the NUMBER OF STATES on a threshold (2^8 .. 2^14): a chain of L states (one long right-hand
+            // side, cheap for kiki) directly followed by a small recursive gadget whose states are
+            // discovered last and looked up again (several incoming transitions, lookaheads arriving
+            // late) - so whatever happens to "state number T" happens to a state that matters
+            let t = *rng.pick(&[256usize, 512, 1024, 2048, 4096, 4096, 4096, 8192, 16_384]);
+            let len = t - rng.below(14);
+            let (a, l, r, x) = (0usize, 1usize, 2usize, 3usize);
+            let mut rhs: Vec<Sym> = (0..len).map(|i| if rng.chance(0.9) { Sym::T(a) } else { Sym::T(i % 2 * 3) }).collect();
+            rhs.push(Sym::N(1));
+            let mut rules = vec![Rule { lhs: 0, rhs }];
+            rules.push(Rule { lhs: 1, rhs: vec![Sym::T(l), Sym::N(1), Sym::T(r)] });
+            rules.push(Rule { lhs: 1, rhs: vec![Sym::T(x)] });
+            if rng.chance(0.5) {
+                rules.push(Rule { lhs: 1, rhs: vec![Sym::T(l), Sym::T(r), Sym::N(1)] });
+            }
+            (Cfg { nn: 2, nt: 4, rules, start: 0 }, vec![rng.chance(0.3), true])
+        }
         6 => {
             // very many terminals (column indices beyond 2^7 and 2^8) with tiny lookahead sets, so that
             // kiki's construction stays fast: the terminals stand in a row that is cut into 1-4
@@ -789,7 +808,7 @@ impl Source {
             Source::SharedContexts => "shared-contexts",
             Source::Nested => "nested-recursion",
             Source::NullableChain => "nullable-chain",
-            Source::Big => "big (sizes across 10/16/32/64/100/128/256/316)",
+            Source::Big => "big (sizes across 10/16/32/64/100/128/256/316, state counts across 2^8..2^14)",
             Source::Enumerated => "enumerated",
         }
     }
